@@ -75,6 +75,9 @@ type Op struct {
 	D int     `json:"d,omitempty"` // delete variant 0 DeleteRecord 1 WithRebalancing 2 Lazy
 	T float64 `json:"t,omitempty"` // lazy threshold
 	I int     `json:"i,omitempty"` // incremental interval in microseconds
+	// R > 0 (writeload/writeat): the tree object the image is loaded into is not a fresh one - it already holds R records of
+	// another tree (an object that is re-used)
+	R int `json:"r,omitempty"`
 }
 
 type Case struct {
@@ -136,6 +139,9 @@ func genCase(t *rapid.T) Case {
 		case "writeload", "writeat":
 			// node size of the object the image is loaded into: the stored header decides, not the constructor argument
 			op.N = rapid.SampledFrom([]int{0, 0, 64, 128, 512, 4096}).Draw(t, "loadInto")
+			if rapid.IntRange(0, 2).Draw(t, "reuse") == 0 {
+				op.R = rapid.IntRange(1, 5).Draw(t, "reuseRecords")
+			}
 		case "fill":
 			op.N = rapid.IntRange(1, capacity+3).Draw(t, "count")
 			op.V = valGen.Draw(t, "v")
@@ -156,6 +162,7 @@ func classify(c Case) (bool, []string) {
 	deleted := map[int]bool{}
 	names := c.names()
 	peak, reinserted, midLoad, overCap := 0, false, false, false
+	reused, reusedEmpty := false, false
 	for i, op := range c.Ops {
 		switch op.K {
 		case "ins":
@@ -187,6 +194,12 @@ func classify(c Case) (bool, []string) {
 			if i < len(c.Ops)-1 && len(live) > 0 {
 				midLoad = true
 			}
+			if op.R > 0 {
+				reused = true
+				if len(live) == 0 {
+					reusedEmpty = true
+				}
+			}
 		}
 		if len(live) > peak {
 			peak = len(live)
@@ -207,6 +220,12 @@ func classify(c Case) (bool, []string) {
 	}
 	if c.Collide {
 		labels = append(labels, "colliding_pool")
+	}
+	if reused {
+		labels = append(labels, "loaded_into_reused_object")
+	}
+	if reusedEmpty {
+		labels = append(labels, "empty_tree_loaded_into_reused_object")
 	}
 	return peak*2 >= capacity || reinserted || midLoad, labels
 }
@@ -471,6 +490,9 @@ func (s *state) writeAndReload(step int, op Op, inPlace bool) *vt.Verdict {
 		into = uint32(op.N) // the library itself always constructs a 4096-byte tree object and then loads whatever the file holds
 	}
 	nt := structures.NewWritableBTreeV2(into)
+	for j := 0; j < op.R && j < 5; j++ {
+		_ = nt.InsertRecord(fmt.Sprintf("stale-%d", j), 0xABCD00+uint64(j)) // what the re-used object held before
+	}
 	if err := nt.LoadFromFile(s.file, s.hdrAddr, s.sb); err != nil {
 		return bad("LoadFromFile of freshly written tree: %v", err)
 	}
@@ -798,5 +820,6 @@ func TestProp(t *testing.T) {
 				return len(c.Name) > 0, []string{fmt.Sprintf("len%%12=%d", len(c.Name)%12)}
 			}}.WithBudget(100000, 1500000),
 		vt.Sub[Case]{Prop: prop, Name: "history", Gen: genCase, Run: run, Classify: classify}.WithBudget(30000, 150000),
+		vt.Sub[DWCase]{Prop: prop, Name: "densewriter", Gen: genDW, Run: runDW, Classify: classifyDW}.WithBudget(1500, 12000),
 	)
 }
